@@ -94,6 +94,8 @@ type Outcome struct {
 	Trace       []string
 	Deadlock    bool
 	MaxOpSteps  uint64
+	BigCalls    uint64 // math/big calls charged to the logical clock
+	BigCost     uint64 // steps charged for them
 }
 
 type sharedVar struct {
@@ -352,6 +354,7 @@ func runEpochPass(p *Program, ei int, opt *Options, plan bool) *epochRun {
 	e.sim = NewSim(opt.Budget, opt.Sites)
 	e.sim.TraceOn = opt.Trace && plan
 	decimal128.VerifHook = e.sim.Hook
+	decimal128.VerifCostHook = e.sim.CostHook
 	decimal128.VerifLockHook = e.sim.LockHook
 	e.sim.ClockBase = ClockNow()
 	decimal128.VerifClock = e.sim.Clock
@@ -377,6 +380,7 @@ func runEpochPass(p *Program, ei int, opt *Options, plan bool) *epochRun {
 	}
 	e.sim.Run(first)
 	decimal128.VerifHook = nil
+	decimal128.VerifCostHook = nil
 	decimal128.VerifLockHook = nil
 	for _, lc := range e.sim.LockCycles {
 		e.addViol(VLiveness, lc.Kind, lc.Detail, lc.Task, lc.Op)
@@ -440,6 +444,8 @@ func Execute(p *Program, opt *Options) *Outcome {
 		}
 		out.OpSteps[ei] = steps
 		out.Steps += ref.sim.Steps
+		out.BigCalls += ref.sim.BigCalls
+		out.BigCost += ref.sim.BigCost
 		if opt.RefOnly {
 			out.Violations = append(out.Violations, ref.viol...)
 			continue
@@ -451,6 +457,8 @@ func Execute(p *Program, opt *Options) *Outcome {
 			conc = runEpochPass(p, ei, opt, true)
 		}
 		out.Steps += conc.sim.Steps
+		out.BigCalls += conc.sim.BigCalls
+		out.BigCost += conc.sim.BigCost
 		out.Switches += conc.sim.Switches
 		out.Preempts += conc.sim.Preempts
 		out.SyncPre += conc.sim.LockPreempts
@@ -597,10 +605,11 @@ func reversePass(p *Program, ei int, opt *Options, conc *epochRun) []Violation {
 	sm := NewSim(opt.Budget, opt.Sites)
 	defer sm.Close()
 	decimal128.VerifHook = sm.Hook
+	decimal128.VerifCostHook = sm.CostHook
 	decimal128.VerifLockHook = sm.LockHook
 	sm.ClockBase = ClockNow()
 	decimal128.VerifClock = sm.Clock
-	defer func() { decimal128.VerifHook = nil; decimal128.VerifLockHook = nil }()
+	defer func() { decimal128.VerifHook = nil; decimal128.VerifCostHook = nil; decimal128.VerifLockHook = nil }()
 	*modePtr = decimal128.RoundingMode(ep.Mode)
 	var pool *poolObjs
 	var poolHash uint64
